@@ -36,17 +36,26 @@ __all__ = [PushService.__name__]
 from ..api.tracepoint import TracePointConfig as TrPoCo, EventSnapshot, StackFrame as StFr, WatchResult as WaRe, \
     Variable as Var, VariableId as VarId
 from ..grpc import convert_value
+from ..utils import wire_safe
+
+
+def __text(value):
+    """Make a text field safe to put on the wire (un-encodable characters are escaped); None stays None."""
+    if isinstance(value, str):
+        return wire_safe(value)
+    return value
 
 
 def __convert_tracepoint(tracepoint: TrPoCo):
-    return TracePointConfig(ID=tracepoint.id, path=tracepoint.path, line_number=tracepoint.line_no,
-                            args=tracepoint.args,
-                            watches=tracepoint.watches)
+    return TracePointConfig(ID=tracepoint.id, path=__text(tracepoint.path), line_number=tracepoint.line_no,
+                            args={__text(k): __text(v) for k, v in tracepoint.args.items()},
+                            watches=[__text(w) for w in tracepoint.watches])
 
 
 def __convert_frame(frame: StFr):
-    return StackFrame(file_name=frame.file_name, short_path=frame.short_path, method_name=frame.method_name,
-                      line_number=frame.line_number, class_name=frame.class_name, is_async=frame.is_async,
+    return StackFrame(file_name=__text(frame.file_name), short_path=__text(frame.short_path),
+                      method_name=__text(frame.method_name),
+                      line_number=frame.line_number, class_name=__text(frame.class_name), is_async=frame.is_async,
                       column_number=frame.column_number, variables=[__convert_variable_id(v) for v in frame.variables],
                       app_frame=frame.app_frame,
                       transpiled_file_name=frame.transpiled_file_name,
@@ -60,20 +69,20 @@ def __convert_watch_source(source):
 
 
 def __convert_watch(watch: WaRe):
-    return WatchResult(expression=watch.expression, good_result=__convert_variable_id(watch.result),
-                       error_result=watch.error, source=__convert_watch_source(watch.source))
+    return WatchResult(expression=__text(watch.expression), good_result=__convert_variable_id(watch.result),
+                       error_result=__text(watch.error), source=__convert_watch_source(watch.source))
 
 
 def __convert_variable(variable: Var):
-    return Variable(type=variable.type, value=variable.value, hash=variable.hash,
+    return Variable(type=__text(variable.type), value=__text(variable.value), hash=variable.hash,
                     children=[__convert_variable_id(c) for c in variable.children], truncated=variable.truncated)
 
 
 def __convert_variable_id(variable: VarId):
     if variable is None:
         return None
-    return VariableID(ID=variable.vid, name=variable.name, modifiers=variable.modifiers,
-                      original_name=variable.original_name)
+    return VariableID(ID=variable.vid, name=__text(variable.name), modifiers=variable.modifiers,
+                      original_name=__text(variable.original_name))
 
 
 def __convert_lookup(var_lookup):
@@ -99,7 +108,7 @@ def convert_snapshot(snapshot: EventSnapshot) -> Snapshot:
                         duration_nanos=snapshot.duration_nanos,
                         resource=[KeyValue(key=k, value=convert_value(v)) for k, v in
                                   snapshot.resource.attributes.items()],
-                        log_msg=snapshot.log_msg)
+                        log_msg=__text(snapshot.log_msg))
     except Exception:
         # todo should this return None?
         logging.exception("Error converting to protobuf")
